@@ -399,6 +399,9 @@ class Outcome:
         if ent is not None and ent.get("status") == "open":
             c = self.known.setdefault(kf, [0, case])
             c[0] += 1
+            kfam = self.__dict__.setdefault("known_families", {}).setdefault(kf, {})
+            e = kfam.setdefault(fam, [0, case])
+            e[0] += 1
         else:
             self.violations.append((why if kf in ("NEW", "", None) else "%s (matches %s, which is not an open finding)" % (why, kf), case))
             self.families.setdefault(fam, []).append(len(self.violations) - 1)
@@ -409,6 +412,10 @@ class Outcome:
         for kf, (n, ex) in sorted(self.known.items()):
             log("KNOWN-FINDING: property=%s %s: %s [%d case(s) this run, e.g. %s]" % (
                 self.pid, kf, self.kf[kf]["what"], n, json.dumps(ex, ensure_ascii=False)[:300]))
+        if os.environ.get("VERIF_SHOW_KNOWN"):
+            for kf, fm in getattr(self, "known_families", {}).items():
+                for fam, (n, ex) in sorted(fm.items(), key=lambda kv: -kv[1][0])[:40]:
+                    log("   known %s: %6d x %s   e.g. %s" % (kf, n, fam, json.dumps(ex, ensure_ascii=False)[:160]))
         paths = []
         fams = getattr(self, "families", {})
         if self.violations:
